@@ -15,15 +15,16 @@ EXPLANATION = (
 
 
 class _Probe(e1.Machine):
-    def __init__(self, F, next_fn):
+    def __init__(self, F, next_fn, excl_idx=1):
         super().__init__(F)
         self.next_fn = next_fn
+        self.excl_idx = excl_idx
         self.next_calls = []
 
     def call_outcomes(self, path, c, callee, full, argv, g, memo):
         a0 = argv[0] if argv else e1.T0
         if callee == self.next_fn:
-            excl = argv[1] if len(argv) > 1 else e1.T0
+            excl = argv[self.excl_idx] if len(argv) > self.excl_idx else e1.T0
             if excl[0] == 'enum' and excl[2] == 0:
                 tag = 'none'
             else:
@@ -62,22 +63,57 @@ def expected(has_this, has_prev, repeat, equal):
 def run(F, tier, res):
     res.assumptions += ['HashMap::get / insert behave as a map; the palette has at least two distinct colours (stated in the property)']
     res.not_decided += ['timestamp parsing / formatting, padding widths, that the code text is unchanged (value-level)']
-    gcs = [p for p in F.fn_bodies if p.endswith('::get_color') and 'StateMachine' in F.bodies[p]['mir']['locals'][1]]
-    gns = [p for p in F.fn_bodies if p.endswith('::get_next_color') and 'StateMachine' in F.bodies[p]['mir']['locals'][1]]
+    # the two colour functions, as methods of the state machine or as associated / free functions handed the memo and the palette
+    gcs = [p for p in F.fn_bodies if p.endswith('::get_color') and 'blame' in p]
+    gns = [p for p in F.fn_bodies if p.endswith('::get_next_color') and 'blame' in p]
     bms = [p for p in F.fn_bodies if p.endswith('::blame_metadata_style')]
     if not gcs or not gns or not bms:
         res.anchor_missing('blame::{get_color, get_next_color, blame_metadata_style}')
         return res
     gc, gn, bm = gcs[0], gns[0], bms[0]
+
+    def _ptypes(fn):
+        mir_ = F.bodies[fn]['mir']
+        return [mir_['locals'][i].replace("'_ ", '').replace(' ', '') for i in range(1, mir_['arg_count'] + 1)]
+
+    def _pidx(fn, pred):
+        return [i + 1 for i, t_ in enumerate(_ptypes(fn)) if pred(t_)]
+    is_optstr = lambda t_: t_.startswith('std::option::Option<&') and 'str' in t_
+    is_palette = lambda t_: t_ in ('&[std::string::String]', '&std::vec::Vec<std::string::String>')
+    gc_key = (_pidx(gc, lambda t_: t_ == '&str') or [2])[0]
+    gn_excl = (_pidx(gn, is_optstr) or [2])[0]
+    gn_pal = _pidx(gn, is_palette)
+
+    def _is_palette_op(fn, op):
+        return any((r[0] in ('param', 'local') and 'blame_palette' in r[2]) or (r[0] == 'param' and r[1] in gn_pal and fn == gn) for r in F.trace(fn, op))
+
+    def _probe_args(repeat, prev):
+        out = []
+        for t_ in _ptypes(gc):
+            if 'StateMachine' in t_:
+                out.append(e1.REF(('SM',)))
+            elif 'HashMap' in t_:
+                out.append(e1.REF(('SM', 'blame_key_colors')))
+            elif is_palette(t_):
+                out.append(e1.REF(('SM', 'config', 'blame_palette')))
+            elif t_ == '&str':
+                out.append(e1.TOP({'this_key'}))
+            elif is_optstr(t_):
+                out.append(prev)
+            elif t_ == 'bool':
+                out.append(e1.BOOL(repeat))
+            else:
+                out.append(e1.T0)
+        return out
     n = ok = 0
     samples = []
     for has_prev_key in (True, False):
         for repeat in (True, False):
-            m = _Probe(F, gn)
+            m = _Probe(F, gn, gn_excl - 1)
             m.RELEVANT = set(m.RELEVANT) | {gc}
             m.stack.append('<probe>')
             prev = e1.ENUM(e1.OPT, 1, [e1.TOP({'prev_key'})]) if has_prev_key else e1.ENUM(e1.OPT, 0, [])
-            outs = m.call_fn(gc, [e1.REF(('SM',)), e1.TOP({'this_key'}), prev, e1.BOOL(repeat)], m.g0(), ())
+            outs = m.call_fn(gc, _probe_args(repeat, prev), m.g0(), ())
             aborted = {(a['memo'] and tuple(a['memo'])) for a in m.aborts.values()}
             cases = {}
             for (rv, g, memo) in outs:
@@ -104,24 +140,38 @@ def run(F, tier, res):
     # ---------- NEXT
     nn = okn = 0
     blocks = F.blocks(gn)
-    idx_calls = [(i, c) for i, c in F.calls(gn) if callee_of(c).endswith('::index') and any(r[0] == 'param' and 'blame_palette' in r[2] for r in F.trace(gn, c['args'][0]))]
+    # palette index sites: Index::index calls on the palette, or built-in indexing of a palette slice (`palette[i]` with `palette: &[String]`)
+    idx_calls = [(i, c['args'][1], F.span_of_call(c)) for i, c in F.calls(gn) if callee_of(c).endswith('::index') and _is_palette_op(gn, c['args'][0])]
+    for bi_, blk_ in enumerate(blocks):
+        if blk_['cleanup']:
+            continue
+        for st in blk_['s']:
+            if st[0] != 'assign':
+                continue
+            for pl_ in [x for x in st[2][1:] if isinstance(x, dict)] + [x.get('copy') or x.get('move') for x in st[2][1:] if isinstance(x, dict) and ('copy' in x or 'move' in x)]:
+                if not pl_ or 'p' not in pl_:
+                    continue
+                ix = [pr for pr in pl_['p'] if pr[0] == 'index']
+                if ix and _is_palette_op(gn, {'copy': {'l': pl_['l'], 'p': []}}):
+                    site = (bi_, {'copy': {'l': ix[0][1], 'p': []}}, F.bodies[gn]['mir']['span']['at'])
+                    if not any(s_[0] == bi_ and s_[1] == site[1] for s_ in idx_calls):
+                        idx_calls.append(site)
     plain = alt = None
-    for (i, c) in idx_calls:
-        roots = F.trace(gn, c['args'][1])
-        has_add1 = any(r[0] == 'binop' and r[1].startswith('Add') for r in roots) and ('int', 1) in F.operand_literals(gn, c['args'][1])
+    for (i, iop, _w) in idx_calls:
+        roots = F.trace(gn, iop)
+        has_add1 = any(r[0] == 'binop' and r[1].startswith('Add') for r in roots) and ('int', 1) in F.operand_literals(gn, iop)
         has_rem = any(r[0] == 'binop' and r[1].startswith('Rem') for r in roots)
         if has_rem and has_add1:
             alt = i
         elif has_rem:
             plain = i
     # both indices are reduced modulo the PALETTE length (not the number of keys or anything else)
-    for (i, c) in idx_calls:
+    for (i, iop, where_) in idx_calls:
         nn += 1
         mod_ok = False
         from .c20 import _find_binop_rvalue
-        pl_ = c['args'][1].get('copy') or c['args'][1].get('move')
         rems = []
-        work = [c['args'][1]]
+        work = [iop]
         seen_l = set()
         while work:
             o_ = work.pop()
@@ -138,13 +188,14 @@ def run(F, tier, res):
                             work.append(y)
         for rv in rems:
             rhs = F.trace(gn, rv[3])
-            if any(r[0] == 'call' and r[1].endswith('::len') and any(rr[0] == 'param' and 'blame_palette' in rr[2] for a in r[4]['args'][:1] for rr in F.trace(gn, a)) for r in rhs):
+            if any(r[0] == 'call' and r[1].endswith('::len') and any(_is_palette_op(gn, a) for a in r[4]['args'][:1]) for r in rhs) or \
+                    (any(r[0] == 'unop' and r[1] == 'PtrMetadata' for r in rhs) and _is_palette_op(gn, rv[3])):
                 mod_ok = True
         if mod_ok:
             okn += 1
         else:
             res.violate('NEXT', 'fn=%s;modulus' % gn, 'a palette index in the next-colour function is not reduced modulo the palette length: the alternative colour can coincide with the '
-                        'excluded one (or the index can leave the palette)', where=F.span_of_call(c))
+                        'excluded one (or the index can leave the palette)', where=where_)
     nn += 1
     good = False
     if plain is not None and alt is not None:
@@ -154,7 +205,7 @@ def run(F, tier, res):
             cmpc = [r for r in roots if r[0] == 'call' and (r[1].endswith('::ne') or r[1].endswith('::eq'))]
             if not cmpc:
                 continue
-            uses_param = any(rr[0] == 'param' and rr[1] == 2 for r in cmpc for a in r[4]['args'] for rr in F.trace(gn, a))
+            uses_param = any(rr[0] == 'param' and rr[1] == gn_excl for r in cmpc for a in r[4]['args'] for rr in F.trace(gn, a))
             if not uses_param:
                 continue
             is_ne = cmpc[0][1].endswith('::ne')
@@ -180,7 +231,7 @@ def run(F, tier, res):
         for (j, cc) in ins:
             key_ok = any(r[0] == 'param' and r[1] == 2 for r in F.trace(bm, cc['args'][1], deep=True))
             val_ok = any(r[0] == 'call' and r[1] == gc for r in F.trace(bm, cc['args'][2], deep=True))
-            same_key = any(r[0] == 'param' and r[1] == 2 for r in F.trace(bm, c['args'][1]))
+            same_key = any(r[0] == 'param' and r[1] == 2 for r in F.trace(bm, c['args'][gc_key - 1]))
             if key_ok and val_ok and same_key:
                 # every path on which the key is NOT a repeat must pass the insert (for a repeat the stored colour is the same)
                 S2 = {}
@@ -225,6 +276,20 @@ def run(F, tier, res):
         else:
             res.violate('MEMO', 'fn=%s;state' % p, 'the blame handler does not store State::Blame(key): the next line cannot see its predecessor', where=F.bodies[p]['mir']['span']['at'])
     res.rule('C17.MEMO', nm, 1, 'memo insert after colour choice; is_repeat provenance; Blame(key) state stored', discharged=okm)
+    # ---------- DEPTH: collisions are avoided by comparing palette STRINGS; that is sound only while different strings are painted as different
+    # colours. The 24-bit -> 256-colour reduction is many-to-one, so the blame colour must be parsed at full depth whatever --true-color says
+    nd = okd = 0
+    for i, c in F.calls(bm):
+        if not callee_of(c).endswith('::parse_color') or len(c['args']) < 2:
+            continue
+        nd += 1
+        lits = F.operand_literals(bm, c['args'][1])
+        if lits and all(v == ('bool', True) for v in lits) and not any(r[0] in ('param', 'call') for r in F.trace(bm, c['args'][1])):
+            okd += 1
+        else:
+            res.violate('DEPTH', 'fn=%s' % bm, 'the blame colour is parsed at the configured colour depth instead of full depth: two palette entries that differ as strings '
+                        '(which is what the collision test compares) can be painted as the same 256-colour cell, so adjacent commits get the same colour', where=F.span_of_call(c))
+    res.rule('C17.DEPTH', nd, 1, 'colour parses in the blame style function: colour depth argument is the constant true', discharged=okd)
     # ---------- REGEX
     acc, statics = rxsites.capture_accesses(F)
     nr = okr = 0
